@@ -54,6 +54,10 @@ pub struct Case {
     rendezvous: bool,
     /// an extra thread calls get() while an initialiser is parked inside the cell
     getter: bool,
+    /// the attempts that cannot return an error (succeeding or panicking initialisers) go through the
+    /// infallible entry point `get_or_init` instead of `get_or_try_init`
+    #[serde(default)]
+    infallible: bool,
 }
 
 trait SeedT: Send + 'static {
@@ -272,7 +276,7 @@ fn run_generic<S: SeedT>(c: &Case, out: &mut Outcome) {
 
     let attempt = |t: usize, a: Action, rep: &mut ThreadReport| {
         let call = || {
-            cell.get_or_try_init(|seed: &mut S| {
+            let body = |seed: &mut S| {
                 if sh.inside.fetch_add(1, SeqCst) != 0 {
                     sh.overlap.store(true, SeqCst);
                 }
@@ -333,8 +337,16 @@ fn run_generic<S: SeedT>(c: &Case, out: &mut Outcome) {
                         Ok(Val { tok: Tracked::new(), v })
                     }
                 }
-            })
-            .map(|r| (r as *const Val as usize, r.v, r.tok.token))
+            };
+            let r: Result<&Val, ()> = if c.infallible && !matches!(a, Action::Fail { .. }) {
+                Ok(cell.get_or_init(|seed: &mut S| match body(seed) {
+                    Ok(v) => v,
+                    Err(()) => unreachable!("only Fail actions return an error"),
+                }))
+            } else {
+                cell.get_or_try_init(body)
+            };
+            r.map(|r| (r as *const Val as usize, r.v, r.tok.token))
         };
         let r = if matches!(a, Action::SucceedUnwinding { .. }) {
             // the call is made from the destructor of a guard while an unrelated panic unwinds this thread
@@ -559,7 +571,7 @@ impl Prop for C17 {
 
     fn rule(&self) -> String {
         "cases = (seed kind: with Drop / without drop glue / with a panicking destructor, each also as a large seed (520 B, 4 KiB, 1 KiB) carrying a checked padding, and a zero-sized seed with a destructor; initialisers may also run from the destructor of a guard while their thread unwinds from an unrelated panic; 1..8 threads each with a script of failing, panicking or succeeding \
-         initialisers that may mutate the seed first; optional spin rendezvous before every attempt; optional getter thread calling get() while the first initialiser is parked inside the cell). \
+         initialisers that may mutate the seed first; optional spin rendezvous before every attempt; optional getter thread calling get() while the first initialiser is parked inside the cell; in 40% of the cases the attempts that cannot return an error go through the infallible entry point get_or_init, the others through get_or_try_init). \
          Oracle: the compiler's auto-trait decisions (a cell whose seed is not Send, or whose value is not Send + Sync, is not Sync; with Arc both it is); at most one initialiser inside the cell at a time, exactly one success, one reference/value for all callers, the seed is found exactly as the previous initialisers left it, \
          get() is None until a success and never blocks (a blocked getter deadlocks the case -> blocked-state detector), drop ledger: seed alive until success, dropped once after, value alive until the cell is dropped, nothing left, nothing dropped twice. \
          non-trivial = >= 2 threads, or a failing/panicking initialiser that mutated the seed followed by another attempt; distinct = different canonical JSON"
@@ -585,8 +597,8 @@ impl Prop for C17 {
             3 => prop::collection::vec(prop::collection::vec(action_strategy(), 1..8), 1..2),
             4 => prop::collection::vec(prop::collection::vec(action_strategy(), 1..5), 2..8),
         ];
-        (seed, threads, any::<bool>(), prop::bool::weighted(0.3))
-            .prop_map(|(seed, threads, rendezvous, getter)| to_case(&Case { seed, threads, rendezvous, getter }))
+        (seed, threads, any::<bool>(), prop::bool::weighted(0.3), prop::bool::weighted(0.4))
+            .prop_map(|(seed, threads, rendezvous, getter, infallible)| to_case(&Case { seed, threads, rendezvous, getter, infallible }))
             .boxed()
     }
 
@@ -637,11 +649,17 @@ impl Prop for C17 {
         if c.threads.iter().flatten().any(|a| matches!(a, Action::SucceedUnwinding { .. })) {
             out.label("init-while-unwinding");
         }
+        if c.infallible && c.threads.iter().flatten().any(|a| !matches!(a, Action::Fail { .. })) {
+            out.label("entry:get_or_init");
+            if c.seed.panicking() {
+                out.label("entry:get_or_init+panicking-seed-destructor");
+            }
+        }
         out.label(format!("seed:{:?}", c.seed));
         out
     }
 
     fn required_labels(&self) -> Vec<&'static str> {
-        vec!["multi-thread", "mutating-failure-then-retry", "getter", "seed:PanickingDrop", "seed:BigPanickingDrop", "seed:BigDrop", "seed:BigNoDrop", "seed:ZstDrop", "init-while-unwinding"]
+        vec!["multi-thread", "mutating-failure-then-retry", "getter", "seed:PanickingDrop", "seed:BigPanickingDrop", "seed:BigDrop", "seed:BigNoDrop", "seed:ZstDrop", "init-while-unwinding", "entry:get_or_init", "entry:get_or_init+panicking-seed-destructor"]
     }
 }
